@@ -6,6 +6,7 @@ pub mod model;
 pub mod out;
 pub mod rng;
 pub mod rt;
+pub mod shapes;
 
 pub mod props;
 
